@@ -7,7 +7,7 @@ export CARGO_NET_OFFLINE=true
 (cd harness && cargo build --release --offline -q)
 # 2. parameters regenerated from the Rust sources, then the whole Coq development (full .vo)
 python3 tools/extract_params.py /repo coq/Gen/Params.v
-(cd coq && coq_makefile -f _CoqProject -o Makefile >/dev/null 2>&1 && make -j16 >/dev/null)
+sh tools/coqmake.sh >/dev/null
 # 3. extraction + OCaml driver
 sh ocaml/build.sh
 echo "setup ok"
